@@ -609,6 +609,127 @@ Definition sweep_disk (mode rel : Z) (disk : fs) (fn : fav) : list Z :=
   | _ => [ST_CRASH]
   end.
 
+(* ---------------------------------------------------------------- several users, several saves in ONE process (op 8)
+   The homes of the users share one file system: file n (n < 8) of user u's home has the name 8 * u + n.
+   A step is one call of FavRaw.Save on a fresh tree:
+     HSave u f        an ordinary Save of user u: the system calls of save_syscalls under the names of u's home
+     HRefused u f k   a Save that is refused / fails after k bytes of the image went into the temporary file (an entry
+                      whose payload does not match its type: WriteFavrec returns an error; a write that fails): the
+                      temporary file is created and holds those k bytes, there is no rename, Save returns an error
+     HNoHome u f      the temporary file cannot be created: no system call has an effect
+   Nothing else is carried from one Save to the next: no process-wide state. *)
+Definition uname (u n : Z) : Z := 8 * u + n.
+
+Inductive hstep : Type :=
+| HSave (u : Z) (f : fav)
+| HRefused (u : Z) (f : fav) (k : nat)
+| HNoHome (u : Z) (f : fav).
+
+Definition rename_op (g : Z -> Z) (o : op) : op :=
+  match o with
+  | Create n => Create (g n)
+  | Write n bs => Write (g n) bs
+  | Rename a b => Rename (g a) (g b)
+  end.
+
+Definition step_syscalls (st : hstep) : list op :=
+  match st with
+  | HSave u f => map (rename_op (uname u)) (save_syscalls 1 None f)
+  | HRefused u f k =>
+      match cleanup f with
+      | Ok f1 => match file_chunks f1 with
+                 | Ok cs => [Create (uname u FN_TMP); Write (uname u FN_TMP) (firstn k (bytes_of cs))]
+                 | _ => []
+                 end
+      | _ => []
+      end
+  | HNoHome _ _ => []
+  end.
+
+Definition run_hist (h : list hstep) (disk : fs) : fs := exec disk (flat_map step_syscalls h).
+
+Definition seq_users : list Z := [0; 1; 2; 3].
+Definition dump_favs (d : fs) : list Z := flat_map (fun v => dump_file (lookup (uname v FN_FAV) d)) seq_users.
+
+Definition dump_load_user (d : fs) (v : Z) : list Z :=
+  match lookup (uname v FN_FAV) d with
+  | None => [ST_OK; -1]
+  | Some c => match load c with
+              | ROk t => let x := dump_fav t in ST_OK :: lenZ x :: x
+              | RErr e => [ST_ERR; e]
+              | RCrash => [ST_CRASH]
+              | RFuel => [ST_HANG]
+              end
+  end.
+
+(* what one step prints: the tree before Save, status (+ the returned tree), the temporary file the step left behind,
+   .fav of every user; e is the error code the case expects of a refused step. None: Save panics. *)
+Definition hist_step_out (st : hstep) (e : Z) (disk : fs) : option (list Z * fs) :=
+  let disk' := exec disk (step_syscalls st) in
+  match st with
+  | HSave u f =>
+      let pre := dump_fav f in
+      match save 1 (lookup (uname u FN_FAV) disk) f with
+      | SOk _ ret => let x := dump_fav ret in
+                     Some ([lenZ pre] ++ pre ++ [ST_OK; lenZ x] ++ x ++ [-1] ++ dump_favs disk', disk')
+      | SErr _ code => Some ([lenZ pre] ++ pre ++ [ST_ERR; code; -1] ++ dump_favs disk', disk')
+      | SCrash => None
+      end
+  | HRefused u f _ =>
+      let pre := dump_fav f in
+      match cleanup f with
+      | Ok f1 => match file_chunks f1 with
+                 | Ok _ => Some ([lenZ pre] ++ pre ++ [ST_ERR; e] ++ dump_file (lookup (uname u FN_TMP) disk') ++ dump_favs disk', disk')
+                 | _ => None
+                 end
+      | _ => None
+      end
+  | HNoHome u f =>
+      let pre := dump_fav f in
+      match cleanup f with
+      | Ok _ => Some ([lenZ pre] ++ pre ++ [ST_ERR; e; -1] ++ dump_favs disk', disk')
+      | _ => None
+      end
+  end.
+
+(* the groups of a case after [8]: a group 81 :: header starts a step, the groups up to the next header are its script.
+   Returns the steps and the script groups that precede the first header (must be none). *)
+Fixpoint steps_of (gs : list (list Z)) : list (list Z * list (list Z)) * list (list Z) :=
+  match gs with
+  | [] => ([], [])
+  | g :: r =>
+      let '(steps, pend) := steps_of r in
+      match g with
+      | 81 :: hdr => ((hdr, pend) :: steps, [])
+      | _ => (steps, g :: pend)
+      end
+  end.
+
+Inductive seqres : Type := QOk (out : list Z) (disk : fs) | QBad | QCrash.
+
+(* header: u kind k e idx plen path...; the model uses u, kind, k, e *)
+Fixpoint run_steps (steps : list (list Z * list (list Z))) (disk : fs) (acc : list Z) : seqres :=
+  match steps with
+  | [] => QOk acc disk
+  | (hdr, script) :: r =>
+      match hdr with
+      | u :: kind :: k :: e :: _ :: _ :: _ =>
+          if (u <? 0) || (3 <? u) || (kind <? 0) || (3 <? kind) || (k <? 0) then QBad else
+          match run_script script empty_fav 0 with
+          | Some (f, _) =>
+              let st := if kind =? 0 then HSave u f
+                        else if kind =? 2 then HNoHome u f
+                        else HRefused u f (Z.to_nat k) in
+              match hist_step_out st e disk with
+              | Some (o, disk') => run_steps r disk' (acc ++ o)
+              | None => QCrash
+              end
+          | None => QBad
+          end
+      | _ => QBad
+      end
+  end.
+
 Fixpoint split_at_sep (gs : list (list Z)) : list (list Z) * list (list Z) :=
   match gs with
   | [] => ([], [])
@@ -625,7 +746,9 @@ Definition image_of (s : saved) : option (list Z) :=
    op 4: old script; [99]; new script: the save of the new tree dies at every crash point in turn
    op 7: [hasfav; mode; rel]; 77 :: present :: .fav4 bytes; 78 :: present :: stale temp file bytes; old script; [99];
          new script: the same sweep over any initial home directory (no .fav / .fav of the old script with the mtime
-         relation rel, a .fav4, a stale temporary file), observing every file of the directory and Load afterwards *)
+         relation rel, a .fav4, a stale temporary file), observing every file of the directory and Load afterwards
+   op 8: 81 :: u :: kind :: k :: e :: idx :: plen :: path; script; 81 :: ...; script; ...: several Saves of several users in
+         one process, some refused after k bytes of the image (run_steps above) *)
 Definition run_case (args : list (list Z)) : list Z :=
   match args with
   | [1] :: ops =>
@@ -687,6 +810,16 @@ Definition run_case (args : list (list Z)) : list Z :=
           | None => [ST_BADCASE]
           end
       | _, _ => [ST_BADCASE]
+      end
+  | [8] :: gs =>
+      let '(steps, pend) := steps_of gs in
+      match pend with
+      | [] => match run_steps steps [] [] with
+              | QOk out disk => [ST_OK; lenZ steps] ++ out ++ flat_map (dump_load_user disk) seq_users
+              | QBad => [ST_BADCASE]
+              | QCrash => [ST_CRASH]
+              end
+      | _ => [ST_BADCASE]
       end
   | _ => [ST_BADCASE]
   end.
